@@ -274,7 +274,7 @@ func (p Placed) Gallina(tb *Table, md MDelta) string {
 	d, ok := md(p.PVer)
 	return emit.App("mk_aop", emit.Z(p.OID), tyName(o.Spec.Type), emit.Z(int64(p.Time)), emit.Z(int64(p.Num)), emit.Z(p.CRef),
 		emit.Opt(ok, emit.Z(d)),
-		emit.Bool(o.ParseOK), emit.Z(tb.ID(o.RevealC)), emit.Z(tb.ID(o.NextC)),
+		emit.Bool(o.ParseOK), emit.Z(tb.ID(o.RevealC)),
 		emit.Bool(o.SigOK), emit.Bool(o.SfxOK), emit.Bool(o.DHashOK), emit.Bool(o.DValid), emit.Bool(o.PatchOK),
 		emit.Z(o.Spec.From), emit.Z(o.Spec.Until),
 		emit.Z(o.Spec.DeltaID), emit.Z(tb.ID(o.UpdC)), emit.Z(tb.ID(o.RecC)), emit.Z(o.Spec.OriginID))
